@@ -16,7 +16,7 @@ def builtin (n : String) : Option String :=
   else if n == "float" then some "Float" else if n == "None" then some "Nothing?" else none
 
 def litText : Lit → String
-  | .str s => "\"" ++ s ++ "\""
+  | .str s => escapeStringLiteral s
   | .bool true => "true"
   | .bool false => "false"
   | .none => "null"
